@@ -61,6 +61,10 @@ RuleOK(cfg) ==
        /\ RuleValid(cfg.rule)
        /\ Cardinality(Named(cfg.sel)) = 1
 
+\* a second WithRules rule, registered before or after the first
+Rule2Kinds == {"none", "nomatch-exact", "nomatch-prefix", "good-on-D"}
+Rule2OK(cfg) == cfg.rule2 \in {"none", "good-on-D"}
+
 HasRestBinding(cfg) == cfg.rule # "none" /\ RuleOK(cfg) /\ Named(cfg.sel) \cap MethodsC # {}
 
 Accepts(cfg) ==
@@ -69,9 +73,11 @@ Accepts(cfg) ==
     /\ EffComp(cfg) # "br" /\ DComp(cfg) # "br"
     /\ ~cfg.dup
     /\ RuleOK(cfg)
+    \* every rule must name at least one method, wherever it stands in the list
+    /\ Rule2OK(cfg)
     \* a REST-only service needs at least one binding
     /\ EffProto(cfg) = "rest" => HasRestBinding(cfg)
-    /\ DProto(cfg) = "rest" => (cfg.rule # "none" /\ RuleOK(cfg) /\ Named(cfg.sel) \cap MethodsD # {})
+    /\ DProto(cfg) = "rest" => ((cfg.rule # "none" /\ RuleOK(cfg) /\ Named(cfg.sel) \cap MethodsD # {}) \/ cfg.rule2 = "good-on-D")
 
 Bound(cfg) == IF cfg.rule = "none" THEN {} ELSE Named(cfg.sel)
 =============================================================================
